@@ -25,3 +25,10 @@ class VariableBoundBoundsMaxPropagator(VariableBoundMaxPropagator):
 #        print("max: " + str(self.other.domain.range_l[-1][1]+self.offset))
         return (self.other.domain.range_l[-1][1]+self.offset)
     
+
+    def propagate(self):
+        # An empty domain (the other variable has no value left, eg 
+        # membership in an empty range) gives nothing to propagate
+        if len(self.other.domain.range_l) == 0:
+            return False
+        return super().propagate()
